@@ -62,4 +62,9 @@ def check(report: Report, repo: Repo) -> None:
             exp = T("add", (scale(branch, W_R, 1), scale(scale(P("input"), 1, W_S), W_S, 1)))
             r = TM.term_equal(case.term, exp)
             report.add("R3-apply", f"{base}::return", r, "must equal split -> fn(first) -> add(fn result, second) with one tau; " + TM.first_diff(case.term, exp), fmt(case.term), fmt(exp))
+    # the residual functions are built from the two scale primitives: their contract (C02-R1/R2) is
+    # re-checked here because an aliasing / defaulting change in scale.py breaks this property too
+    from .c02 import check_primitives
+
+    check_primitives(report, repo)
     report.floor("residual functions analysed", len([o for o in report.obls if o.rule != "R2-weights"]), 3)
